@@ -151,6 +151,14 @@ CLAIMS = {
         "pipeline: bounded stand-in only, which also fails today (open finding).",
    note="Partial claim with three open findings (known_findings.jsonl); the propagation itself is not under any contract.",
    design="A.6 / 6 (C17)", technique="contract-based deductive verification of the factor (pyvc AST->VC, z3: lazy sums over data blocks, structured index splitting, loop invariant); bounded finite-difference stand-in for the propagation"),
+ "C08": dict(
+   text="Deductive proof, at the modal-parameter stage shared by all SSI and pLSCF variants (ssi.ac2mp, plscf.ac2mp_poly executed from the real source, eigen-decomposition uninterpreted), of two clauses: every "
+        "reported shape is C v_i divided by its largest-magnitude component, which is therefore reported as exactly 1; and declaring the same samples at kappa times the sampling frequency (dt -> dt/kappa, kappa > 0 symbolic) "
+        "multiplies every pole and every frequency by kappa and leaves every damping ratio unchanged. The whole-pipeline clauses - gain invariance, channel-permutation equivariance and time-unit covariance of the complete "
+        "pole tables for FDD, EFDD, FSDD, SSIcov, SSIdat and pLSCF - are relational statements over floating-point kernels and are checked only by a metamorphic bounded stand-in through SingleSetup (labelled bounded, "
+        "not counted as proved).",
+   note="Mixed level: proof for normalisation and the time-unit law of the pole map; bounded for the pipeline-level covariances. The scaling-law checker of DESIGN section 3 was not built.",
+   design="A.6 / 3", technique="contract-based deductive verification (relational lemma obligations over the ac2mp / ac2mp_poly contracts, z3 NRA) + metamorphic bounded stand-in"),
 }
 NOT_APPLICABLE = {
  "C07": "accuracy tolerance (2.5 % / 15 %) of a floating-point FFT/peak-picking/regression pipeline: no contract over exact reals can state or discharge it (DESIGN.md section 8); its scale-invariance clause is covered under C08",
